@@ -122,7 +122,7 @@ def run_case(case, ctx):
 
 def _arg(op):
     if op["op"] == "tag":
-        return "never" if "raw" in op["cid"] else f"cid{op['cid']['of']}"
+        return "never" if "raw" in op["cid"] else f"cid{op['cid']['of']}" + ("-UPPER" if op["cid"].get("upper") else "")
     if op["op"] in ("store", "dii"):
         return [op.get("c"), op.get("cks", "none"), op.get("size", "none")]
     return op.get("fmt")
